@@ -72,7 +72,7 @@ ASSUME = ["refs/keplerref.py (eccentric-anomaly-difference f/g solution, no code
 SHARDS = {"quick": 4, "thorough": 16}
 BUDGET_S = {"quick": 75, "thorough": 900}
 DECIDING = ["tol_constants", "kepler_exact", "conservation", "universal", "compose", "batch_vs_single", "bulk_vs_single",
-            "bulk_degenerate", "event_restart", "epoch_resplit", "sp_compose", "sp_batch_vs_single", "sp_bulk_vs_single",
+            "bulk_degenerate", "event_restart", "epoch_resplit", "sp_compose", "sp_batch_vs_single", "sp_bulk_vs_single", "sp_deriv_batch", "sp_deriv_epoch",
             "sp_reduces", "scenario_truth"]
 MANIFEST = {"technique": "runtime monitoring: metamorphic relations + closed-form Kepler oracle on the real propagators",
             "level_text": "exploration: seeded boundary-biased sampling of orbits, durations, splits, batches, grids, epoch shifts",
@@ -611,6 +611,55 @@ def rel_epoch(ctx, spec, x0, t0, t2, shift_s):
     return True
 
 
+def rel_deriv(ctx, spec, X, t, shift_s):
+    """The two relations on the force function itself (a propagation over zero time, so no integrator noise):
+    the derivative of K stacked states is the K derivatives stacked, and it depends on (jd0 + t) only."""
+    from resonaate.physics.time.stardate import ScenarioTime
+
+    X = np.array(X, dtype=float)
+    K_ = X.shape[1]
+    w = _w("deriv", spec=spec, X=X, t=t, shift_s=shift_s)
+    d = _dyn(spec)
+    try:
+        D = np.asarray(d._differentialEquation(float(t), X.ravel().copy()), dtype=float).reshape(6, K_)
+        cols = [np.asarray(d._differentialEquation(float(t), X[:, k].copy()), dtype=float) for k in range(K_)]
+    except Exception as exc:  # noqa: BLE001
+        ctx.count("deriv_raised_" + type(exc).__name__)
+        return False
+    for k in range(K_):
+        a = float(np.linalg.norm(cols[k][3:]))
+        err = float(np.linalg.norm(D[:, k] - cols[k]))
+        if not ctx.check(err <= 1e-13 * a, "sp-deriv-batch-column-differs", f"force function: column {k} of K={K_} stacked states has derivative differing by {err:.3e} "
+                         f"({err / a:.2e} |a|) from the derivative of that state alone (gr={spec['gr']}, srp={spec['srp']}, third={spec['third']})", w, mon="sp_deriv_batch"):
+            break
+    if shift_s and t - shift_s >= 0.0:
+        spec_b = dict(spec)
+        spec_b["jd"] = spec["jd"] + shift_s / 86400.0
+        db = _dyn(spec_b)
+        try:
+            cb = np.asarray(db._differentialEquation(float(t - shift_s), X[:, 0].copy()), dtype=float)
+        except Exception as exc:  # noqa: BLE001
+            ctx.count("deriv_raised_" + type(exc).__name__)
+            return True
+        err = float(np.linalg.norm(cb - cols[0]))
+        # the two epochs agree to one ulp of a Julian date (4.7e-10 d = 4e-5 s); the force turns with the Earth at 7.3e-5 rad/s,
+        # so the non-central part (<= ~2e-5 km/s^2 at LEO, falling with r^-4) could differ by ~1e-13 km/s^2; in practice both sides round to the same microsecond
+        r = float(np.linalg.norm(X[:3, 0]))
+        tol = 4e-14 * (6678.0 / r) ** 4 + 1e-16  # observed worst on the unchanged tree: 1e-15 at LEO (2.5% of this)
+        if _crosses_jump(spec, t):
+            ctx.count("deriv_epoch_at_model_jump")
+        else:
+            ctx.check(err <= tol, "sp-deriv-epoch-resplit-differs", f"force function at the same absolute epoch differs by {err:.3e} km/s^2 (tol {tol:.1e}) when the start date moves by {shift_s:+g} s "
+                      f"and the elapsed time by {-shift_s:+g} s (gr={spec['gr']}, srp={spec['srp']}, third={spec['third']})", w, mon="sp_deriv_epoch")
+    return True
+
+
+def _crosses_jump(spec, t):
+    """Within 2 s of a UTC midnight (EOP day switch seen through one-ulp-different Julian dates) - a documented model jump."""
+    f = (spec["jd"] + t / 86400.0 + 0.5) % 1.0
+    return min(f, 1.0 - f) * 86400.0 < 2.0
+
+
 def rel_scenario(ctx, start_iso, steps, dur, X, model, integration, geo=None, pert=None):
     """Truth ephemerides written by real truth-only Scenario runs with different physics steps.
 
@@ -993,6 +1042,11 @@ def _sp_case(ctx, rng, i):
         done = rel_kepler(ctx, spec, x0, t0, t2)
         key = (rel, spec["method"], spec["jd"], _rnd(x0), t0, t2)
         smp = {"relation": "SP(0x0, no perturbations) vs closed form", "method": spec["method"], "t0": t0, "dt": dt}
+    if rel != "reduces":
+        kk2 = rng.choice([2, 3, 4])
+        Xd = np.column_stack([x0] + [_rand_orbit(rng) for _ in range(kk2 - 1)])
+        sh = abs(_shift(rng))
+        rel_deriv(ctx, spec, Xd, t0 + sh + rng.choice([0.0, float(rng.randrange(0, 86400))]), sh)
     ctx.case(key, nontrivial=bool(done))
     ctx.count("cases_sp_" + rel)
     if i % 11 == 0:
@@ -1091,5 +1145,7 @@ def replay(ctx, w):
         rel_event(ctx, w["spec"], w["x0"], w["t0"], w["te"], w["t2"], w.get("ttype", "float"), w.get("dv"))
     elif k == "epoch":
         rel_epoch(ctx, w["spec"], w["x0"], w["t0"], w["t2"], w["shift_s"])
+    elif k == "deriv":
+        rel_deriv(ctx, w["spec"], w["X"], w["t"], w["shift_s"])
     elif k == "scenario":
         rel_scenario(ctx, w["start"], w["steps"], w["dur"], w["X"], w["model"], w["integration"], w.get("geo"), w.get("pert"))
